@@ -182,14 +182,14 @@ class C12(_AppSpec):
 
     def shards(self, tier):
         if tier == "quick":
-            base = docs.g1_shards(1) + _strided(docs.g2_shards(docs.load_pool("mini"), replace=True), 3)
-            return [self.job("c12", s, budget=400.0) for s in base]
+            base = docs.g1_shards(1) + _strided(docs.g2_shards(docs.load_pool("mini"), replace=True), 8)
+            return [self.job("c12", s, budget=300.0) for s in base]
         base = docs.g1_shards(1) + docs.g2_shards(docs.load_pool("core"), replace=True)
         return [self.job("c12", dict(s, minus=True), budget=900.0) for s in base]
 
     def bounds_text(self, tier):
         if tier == "quick":
-            return {"documents": "G1 length 0..1; mini pool, one symbolic cell at every third position", "configurations": "all, default, each of the 46 rules alone"}
+            return {"documents": "G1 length 0..1; mini pool, one symbolic cell at every eighth position", "configurations": "all, default, each of the 46 rules alone"}
         return {"documents": "G1 length 0..1; core pool one cell at every position", "configurations": "all, default, each rule alone, default minus each default-enabled rule"}
 
 
